@@ -34,7 +34,7 @@ class ArrayBuilder(object):
 
     def __del__(self):
         h = getattr(self, "_h", None)
-        if h is not None and akb._lib is not None:
+        if h is not None and akb is not None and akb._lib is not None:
             try:
                 akb._lib.akb_builder_free(h)
             except Exception:
